@@ -6,6 +6,7 @@ import "verifharness/internal/core"
 var Registry = map[string]func(*core.Ctx){
 	"C11": RunC11,
 	"C12": RunC12,
+	"C13": RunC13,
 	"C20": RunC20,
 }
 
@@ -13,4 +14,5 @@ var Registry = map[string]func(*core.Ctx){
 func RegisterOnly(c *core.Ctx) {
 	registerCborKinds(c)
 	registerRvKinds(c)
+	registerCoseKinds(c)
 }
